@@ -2275,6 +2275,7 @@ def to_arrow(
                 if mask is not None:
                     length = int(numpy.ceil(len(this_index) / 8.0)) * 8
                     if len(numpy.unique(this_index)) == len(this_index):
+                        length = int(numpy.ceil(len(content) / 8.0)) * 8
                         this_bytemask = numpy.zeros(length, dtype=np.uint8)
                         this_bytemask[this_index] = bytemask[selected_tags]
                     else:
